@@ -284,7 +284,7 @@ fn layout_case(path_type: u8, dtl: u8, stl: u8, seg: [u8; 3], hdr_var: u8, v: u6
     let mut b = sp::fill(hl + pay_len, nx());
     b[0] &= 0x0f; // version 0
     b[4] = next;
-    b[5] = match hdr_var { 0 => (hl / 4) as u8, 1 => (hl / 4) as u8 + 1, 2 => ((hl / 4) as u8).wrapping_sub(1), 3 => 0, _ => 255 };
+    b[5] = match hdr_var { 0 => (hl / 4) as u8, 1 => ((hl / 4) as u8).wrapping_add(1), 2 => ((hl / 4) as u8).wrapping_sub(1), 3 => 0, _ => 255 };
     let plf = match nx() % 6 { 0 => 0usize, 1 => pay_len + 1, 2 => pay_len.saturating_sub(1), 3 => 65535, _ => pay_len };
     b[6..8].copy_from_slice(&(plf as u16).to_be_bytes());
     b[8] = path_type;
